@@ -570,6 +570,7 @@ struct Coherence {
     truth_valid: bool, // the thread's frames in events.jsonl carry seq 0,1,2,.. (a precondition of the property, owned by C01/C05)
     full: FileState,
     full_stale_prefix: bool,
+    full_good_lines_not_contiguous: bool, // every line is a truth line, but the seqs are not 0,1,2,.. (gap after a roll-back + append, or a re-created suffix)
     mr: FileState,
     comp: FileState,
     compidx: FileState,
@@ -577,7 +578,8 @@ struct Coherence {
 }
 fn coherence(root: &Path, id: &str, a: &Abs) -> Coherence {
     let (full, pre) = classify_full(root, id, a);
-    Coherence { truth_valid: a.truth.iter().enumerate().all(|(i, e)| e.seq == i as u64), full, full_stale_prefix: pre, mr: classify_derived_jsonl(root, id, a, Target::Mr), comp: classify_derived_jsonl(root, id, a, Target::Comp), compidx: classify_compidx(root, id, a), ord: classify_ord(root, id, a) }
+    let gap = abstract_full(root, id, a).map(|ls| !ls.is_empty() && ls.iter().all(|(g, _)| *g) && !ls.iter().enumerate().all(|(i, (_, s))| *s == i as u64)).unwrap_or(false);
+    Coherence { truth_valid: a.truth.iter().enumerate().all(|(i, e)| e.seq == i as u64), full, full_stale_prefix: pre, full_good_lines_not_contiguous: gap, mr: classify_derived_jsonl(root, id, a, Target::Mr), comp: classify_derived_jsonl(root, id, a, Target::Comp), compidx: classify_compidx(root, id, a), ord: classify_ord(root, id, a) }
 }
 /// executable class of a fast/truth disagreement
 fn classify_violation(c: &Coherence, fast: &Ans, truth: &Ans, q: &Q) -> String {
@@ -621,6 +623,11 @@ fn classify_violation(c: &Coherence, fast: &Ans, truth: &Ans, q: &Q) -> String {
     }
     if c.compidx == FileState::WellFormedDiffers || c.ord == FileState::WellFormedDiffers {
         return "derived_index_wellformed_not_projection".into();
+    }
+    if c.full_good_lines_not_contiguous && matches!(q, Q::Compile { .. }) {
+        // window_recent_messages_v1_from_message_id (seek/message-id index over the full sidecar) reads a window of a
+        // full sidecar whose seqs are not contiguous without noticing (the tail loops and try_replay do notice)
+        return "compile_window_read_accepts_noncontiguous_full_sidecar".into();
     }
     if (c.comp == FileState::Absent || c.mr == FileState::Absent) && !matches!(c.full, FileState::Exact | FileState::Absent) && matches!(q, Q::CutPoints { .. } | Q::CompactionStatus { .. } | Q::Compile { .. }) {
         // ensure_*_sidecar_best_effort_v1 builds a missing derived sidecar from whatever the full sidecar holds
